@@ -16,6 +16,10 @@ def run(ctx) -> None:
     for name, fn in (("T1", codec.rule_T1), ("T2", codec.rule_T2), ("T2b", codec.rule_T2b), ("T3", codec.rule_T3), ("T4", codec.rule_T4), ("T5", codec.rule_T5), ("Z1", codec.rule_Z1), ("T6", codec.rule_T6)):
         ctx.rules_run.append(name)
         fn(ctx)
+    from .c15 import rule_Q1, rule_Q2
+    ctx.rules_run += ["Q1", "Q2"]
+    rule_Q1(ctx)            # Timestamp / Duration fields round-trip only if the (seconds, nanos) split is exact
+    rule_Q2(ctx)
     ctx.rules_run.append("D2")
     presence.rule_D2(ctx)   # presence survives the round trip only if set members are emitted (selected oneof / optional / empty sub-message)
     ctx.floor("T1", "types", len([o for o in ctx.obs if o.rule == "T1"]), 17)
